@@ -418,6 +418,24 @@ def tags(chk, crates):
                         if st["s"] == "assign" and st["p"]["l"] == 0 and not st["p"]["p"] and st["rv"]["r"] == "agg" and \
                                 st["rv"].get("vname") == "Ok":
                             r_exclusive = False
+    # the reader refuses nothing it could read: with enough bytes at hand (1 for a one-byte tag, 2 on a two-byte page)
+    # no explicit Err is reachable - whatever the second byte is (the writer emits all of them)
+    refused = {}
+    for v in range(256):
+        pr_ = {l: ("i", v) for l in rk}
+        pr_.update({k_: ("i", v) for k_ in rk_places})
+        for L_ in range(2 if v in TAG_PAGES else 1, 5):
+            pl = dict(pr_)
+            pl[("len", 1)] = ("i", L_)
+            for i in feasible_reach(dec, 0, pins=pl):
+                for st in dec.blocks[i]["stmts"]:
+                    if st["s"] == "assign" and st["p"]["l"] == 0 and not st["p"]["p"] and st["rv"]["r"] == "agg" and \
+                            st["rv"].get("vname") == "Err":
+                        refused.setdefault(v, set()).add(L_)
+    chk.require(not refused, "C17-c/reader-total", "Encoding<Tag>::decode",
+                "the reader can refuse a tag although all its bytes are there (first byte %s): the writer emits every such tag, so "
+                "those values do not come back" % ", ".join("0x%02x" % v for v in sorted(refused)[:8]),
+                "no Err with enough input", dec.sp())
     chk.analysed["tag_page_case_split"] = {"values": 256, "writer_pages": sorted(wset), "reader_pages": sorted(rset)}
     chk.require(wset == TAG_PAGES, "C17-c/writer-pages", "Encoding<Tag>::encode",
                 "two-byte tags are written for high bytes %s, specification says %s" % (sorted(map(hex, wset)), sorted(map(hex, TAG_PAGES))),
